@@ -43,7 +43,9 @@ LEVEL_TEXT = (
     "the domain; global minimality is proved directly for the non-convex SquaredL2AbsLoss, SquaredL2SquaredAbsLoss (real and "
     "complex; the root of the depressed cubic is PROVED from the code's closed form outside its 1e-7 band) and L1-L2 (every "
     "beta>=0, all four branches and v=0); for L0Norm the theorem characterises exactly where the coded threshold is optimal "
-    "and the negation is proved with a witness; the has_prox guards of the losses are decision-logic theorems."
+    "and the negation is proved with a witness; the has_prox guards of the losses are decision-logic theorems; for a general linear "
+    "operator the documented system characterises the prox and any approximate solution is within its residual norm of it (CG path); "
+    "parameter edge cases (radius <= 0, delta < 0, scale < 0) are characterised."
 )
 LEVEL_NOTE = (
     "Trusted: Lean kernel + Mathlib (axioms propext, Classical.choice, Quot.sound); real-number idealisation of IEEE arithmetic; "
@@ -71,7 +73,8 @@ RULE = (
     "A in {None, Identity, Diagonal}; plain 1-4-d / block layouts; real / complex; float64 and float32) with dyadic v, lam, plus a "
     "boundary stream (magnitudes exactly on / one grid step beside each threshold, v=0, ||v||=r, inside / on / outside the set, zero "
     "weights, ties of the arg-max); exhaustive guard stream (W kind x A kind x sign of y for the three specific losses) and "
-    "argument-rejection stream (NuclearNorm ndim, L21Norm block/axis, PoissonLoss). A case is non-trivial when the prox output is "
+    "argument-rejection stream (NuclearNorm ndim, L21Norm block/axis, PoissonLoss); attribute-update histories on live objects; CG stream "
+    "(MatrixOperator, tolerances, x0, call/set_scale histories); parameter edge stream (NaN-aware); firm non-expansiveness pairs. A case is non-trivial when the prox output is "
     "neither 0 nor v (a threshold is active) or it comes from the boundary / guard / reject stream; distinct by (family, parameters, "
     "layout, v, lam)."
 )
